@@ -1,6 +1,6 @@
 (* C05/Proofs_sync.v — SyncLogger: one connect ... disconnect session yields the decoded samples in FIFO
    order, each at most once, and stops at the disconnect. *)
-From CF Require Import C05.Model.
+Require Import CF.C05.Model.
 Open Scope Z_scope.
 
 Definition is_connect (e : sl_ev) : bool := match e with SConnect => true | _ => false end.
@@ -85,16 +85,19 @@ Qed.
 Lemma sl_next_head k q : sl_step (mkSl true (QSample k :: q)) SNext = (mkSl true q, YSample k).
 Proof. reflexivity. Qed.
 
-(* the run of one session: connect, then anything but connect *)
-Lemma sl_session evs :
+(* the run of one session, after any earlier use of the object: connect, then anything but connect *)
+Lemma sl_session s0 evs : sl_conn s0 = false ->
   forallb (fun e => negb (is_connect e)) evs = true ->
-  let r := sl_run sl_init (SConnect :: evs) in
+  let r := sl_run s0 (SConnect :: evs) in
   yields (snd r) ++ qsamples (sl_queue (fst r)) = delivered true evs.
 Proof.
-  intros Hc. cbn zeta. cbn [sl_run sl_step sl_init sl_conn sl_queue].
+  intros H0 Hc. cbn zeta. cbn [sl_run sl_step]. rewrite H0.
   pose proof (sl_conservation evs (mkSl true []) Hc ltac:(intros _; constructor)) as H.
   destruct (sl_run (mkSl true []) evs) as [s2 os]. cbn [fst snd yields sl_conn sl_queue qsamples app] in *. exact H.
 Qed.
+
+Lemma sl_connect_fresh s0 : sl_conn s0 = false -> sl_step s0 SConnect = (mkSl true [], YNone).
+Proof. intros H. cbn [sl_step]. now rewrite H. Qed.
 
 (* if the consumer has taken everything before the session ends, nothing is lost *)
 Lemma sl_session_split pre d post :
